@@ -19,7 +19,7 @@ use std::time::{Duration, Instant};
 pub const ALPHA: [&str; 27] = [
     " ", "'", "\"", "$", "*", "?", "[", "]", "{", "}", ",", "~", "#", "|", "&", ";", "<", ">", "(", ")", "\\", "!", "`", "=", "%", "^", "é",
 ];
-pub const CONTEXTS: [&str; 4] = ["unquoted", "single-quote", "double-quote", "cd"];
+pub const CONTEXTS: [&str; 6] = ["unquoted", "single-quote", "double-quote", "cd", "cd-single-quote", "cd-double-quote"];
 const PREFIX: &str = "ab";
 
 /// where the entry lives relative to the shell's working directory, and how that is typed
@@ -41,12 +41,15 @@ impl CaseRepr for Case {
 fn typed_line(ctx: usize, loc: usize) -> String {
     let mut l = LOCATIONS[loc].1.to_string();
     if l.contains(' ') && (CONTEXTS[ctx] == "unquoted" || CONTEXTS[ctx] == "cd") {
+        // (the quoted cd contexts type the blank as it is)
         l = l.replace(' ', "\\ ");      // typed with an escaped blank outside quotes
     }
     match CONTEXTS[ctx] {
         "unquoted" => format!("vh-argv {}{}", l, PREFIX),
         "single-quote" => format!("vh-argv '{}{}", l, PREFIX),
         "double-quote" => format!("vh-argv \"{}{}", l, PREFIX),
+        "cd-single-quote" => format!("cd '{}{}", l, PREFIX),
+        "cd-double-quote" => format!("cd \"{}{}", l, PREFIX),
         _ => format!("cd {}{}", l, PREFIX),
     }
 }
@@ -73,12 +76,12 @@ pub fn verdict(ctx: usize, name: &str, workdir: &str, loc: usize) -> (String, Va
     std::env::set_var("HOME", format!("{}/home", workdir));
     std::env::set_var("VDIR", format!("{}/vdir", workdir));
     // single quotes keep `~` and `$VDIR` literal: those location / context pairs are not meaningful
-    if CONTEXTS[ctx] == "single-quote" && (loc == 2 || loc == 3) || CONTEXTS[ctx] == "double-quote" && LOCATIONS[loc].0 == "home" {
+    if CONTEXTS[ctx].ends_with("single-quote") && (loc == 2 || loc == 3) || CONTEXTS[ctx].ends_with("double-quote") && LOCATIONS[loc].0 == "home" {
         return ("skipped".into(), Value::Null);
     }
     let path = format!("{}/{}", dir, full);
     let full = format!("{}{}", expect_prefix, full);
-    let for_dir = CONTEXTS[ctx] == "cd";
+    let for_dir = CONTEXTS[ctx].starts_with("cd");
     let made = if for_dir { std::fs::create_dir(&path).is_ok() } else { std::fs::write(&path, b"x").is_ok() };
     if !made {
         return ("machinery".into(), json!(format!("cannot create {:?}", path)));
@@ -96,6 +99,13 @@ pub fn verdict(ctx: usize, name: &str, workdir: &str, loc: usize) -> (String, Va
                 None => line.push(' '),
                 Some('\0') => {}
                 Some(c) => line.push(*c),
+            }
+        }
+        // a directory completed inside an open quote keeps the quote open (the user may go on with the next path
+        // component): the user closes it with the quote character the completed word now starts with
+        if CONTEXTS[ctx].starts_with("cd-") && comps.len() == 1 && !vh::parse_line(&line).is_complete {
+            if let Some(q) = comps[0].0.chars().next().filter(|c| *c == '\'' || *c == '"') {
+                line.push(q);
             }
         }
         let edited = line.clone();
@@ -272,7 +282,7 @@ pub fn run(ctx: &Ctx) -> Value {
             let list: Vec<(String, String, String, usize)> = serde_json::from_str(&text).unwrap_or_default();
             let d = worker_dir(&scratch);
             for (c, name, pty_kind, loc) in list {
-                let ci = match c.as_str() { "U" => 0, "S" => 1, "D" => 2, _ => 3 };
+                let ci = match c.as_str() { "U" => 0, "S" => 1, "D" => 2, "CS" => 4, "CD" => 5, _ => 3 };
                 let (kind, observed) = verdict(ci, &name, &d, loc);
                 conf_checked += 1;
                 if (kind == "ok") != (pty_kind == "ok") {
